@@ -919,7 +919,9 @@ class PurityWorld:
         elif isinstance(res, (int, float, np.integer, np.floating)):
             self.log.add(res)
         if op.get("lane") is not None:
-            self.results.setdefault(("fn", op["lane"]), []).append((op["fn"], res, op.get("env")))
+            # a private copy: what the caller got must be compared, not an object that later
+            # calls may still write into (a returned array that aliases library state)
+            self.results.setdefault(("fn", op["lane"]), []).append((op["fn"], copy.deepcopy(res), op.get("env")))
 
     def op_SET(self, op, i):
         """The caller re-parameterises a (possibly fitted) estimator between two fits:
@@ -951,6 +953,20 @@ class PurityWorld:
         self.stats["fired"]["caller:reparameterised"] += 1
         self.log.add("SET", name, sorted(op["params"]))
         self.check_heap(f"set_params of {m['kind']}", m["kind"], op["params"])
+
+    def op_POKE(self, op, i):
+        """The caller edits a dict-valued hyper-parameter of one object in place."""
+        obj = self.objs.get(op["obj"])
+        m = self.meta.get(op["obj"])
+        if obj is None or m is None or m["retired"]:
+            return
+        d = getattr(obj, op["param"], None)
+        if not isinstance(d, dict):
+            return
+        d[op["key"]] = self.resolve(op["value"])
+        m["retired"] = True  # this object's own results are no longer comparable with anything
+        self.stats["fired"]["caller:edited_dict_parameter_in_place"] += 1
+        self.log.add("POKE", op["obj"], op["param"], op["key"])
 
     def op_SNAP(self, op, i):
         """Remember the public fitted state of an object (deep copy)."""
